@@ -50,6 +50,13 @@ fn main() {
         .and_then(|s| s.parse::<i64>().ok())
         .map(|v| v as u64)
         .unwrap_or(1);
+    if std::env::var("VERIF_TRACE").is_ok() {
+        // developer aid: VERIF_TRACE=1 RUST_LOG=rustrtc=debug
+        let _ = tracing_subscriber::fmt()
+            .with_env_filter(tracing_subscriber::EnvFilter::from_default_env())
+            .with_writer(std::io::stderr)
+            .try_init();
+    }
     engine::panics::install();
     let Some((id, f)) = props::TABLE.iter().find(|(id, _)| *id == prop) else {
         eprintln!("unknown property {prop}");
